@@ -1,6 +1,7 @@
 /-
 Model of pkg/stats (stats_recorder.go, interceptor.go), transcribed branch by branch, on the
-tree that carries the two `fix:` commits of C19 (F-29: the XR case of recordIncomingRTCP no
+tree that carries the three `fix:` commits of C19 (F-34: an incoming FIR is counted for the
+streams named in its FCI entries, whatever the media SSRC of its header; F-29: the XR case of recordIncomingRTCP no
 longer `return`s out of the loop; F-27: BindRTCPReader hands the recorders the attributes
 returned by the inner reader).  The code before the F-29 fix is kept as
 `recordIncomingRTCPUnfixed` for the negative theorem.
@@ -247,7 +248,7 @@ def recordIncomingXR (ssrc : Nat) (st : IStats) (blocks : List XrBlock) (now : I
 /-- the `switch` of `recordIncomingRTCP` for a packet that passed the destination check. -/
 def inSwitch (ssrc : Nat) (rate : Rat) (now : Int) (st : IStats) : Rtcp → IStats
   | .nack _ media => if media = ssrc then { st with outNACK := st.outNACK + 1 } else st
-  | .fir _ media _ => if media = ssrc then { st with outFIR := st.outFIR + 1 } else st
+  | .fir _ _ _ => { st with outFIR := st.outFIR + 1 }   -- the FCI entries were matched by the destination check
   | .pli _ media => if media = ssrc then { st with outPLI := st.outPLI + 1 } else st
   | .rr _ reports => recordIncomingRR ssrc rate st reports now
   | .sr _ ntp pc oc reports =>
@@ -255,6 +256,11 @@ def inSwitch (ssrc : Nat) (rate : Rat) (now : Int) (st : IStats) : Rtcp → ISta
     recordIncomingRR ssrc rate st reports now
   | .xr _ blocks => recordIncomingXR ssrc st blocks now
   | .other _ => st
+
+/-- the FIR case of the switch before `fix: stats: count an incoming FIR for the stream named in
+its FCI entries` (F-34): it also wanted the media SSRC of the header to be the stream's. -/
+def firInUnfixed (ssrc : Nat) (st : IStats) (media : Nat) : IStats :=
+  if media = ssrc then { st with outFIR := st.outFIR + 1 } else st
 
 /-- one iteration of the loop of `recordIncomingRTCP` (fixed code). -/
 def inStep (ssrc : Nat) (rate : Rat) (now : Int) (st : IStats) (pkt : Rtcp) : IStats :=
